@@ -109,6 +109,7 @@ pub struct HStats {
     pub seeks_in_buffer: usize,
     pub seeks_real: usize,
     pub largest_set: usize,
+    pub clone_from_calls: usize,
     pub exact_huge_n: usize,
     pub interrupts_seen: usize,
     pub positions_checked_after_error: usize,
@@ -1134,13 +1135,28 @@ pub fn run_history_reusing(case: &HCase, opts: RunOpts, reuse: Option<Vec<AnySet
             }
             Op::CloneSlot(a, b) => {
                 if a != b {
-                    match guarded(|| run.sets[*a].clone()) {
-                        Ok(c) => {
-                            run.sets[*b] = c;
-                            run.slots[*b] = run.slots[*a].clone();
-                            run.do_iter_slot(*b);
+                    if (a + b + k) % 2 == 0 {
+                        // `clone_from` into the used destination instead of assigning a fresh clone
+                        let src = std::mem::replace(&mut run.sets[*a], AnySet::new(case.fmt));
+                        let r = guarded(|| run.sets[*b].clone_from_set(&src));
+                        run.sets[*a] = src;
+                        run.stats.clone_from_calls += 1;
+                        match r {
+                            Ok(()) => {
+                                run.slots[*b] = run.slots[*a].clone();
+                                run.do_iter_slot(*b);
+                            }
+                            Err(c) => run.caught(c),
                         }
-                        Err(c) => run.caught(c),
+                    } else {
+                        match guarded(|| run.sets[*a].clone()) {
+                            Ok(c) => {
+                                run.sets[*b] = c;
+                                run.slots[*b] = run.slots[*a].clone();
+                                run.do_iter_slot(*b);
+                            }
+                            Err(c) => run.caught(c),
+                        }
                     }
                 }
             }
